@@ -6,6 +6,7 @@ import (
 	"github.com/bokysan/socketace/v2/internal/streams"
 	"github.com/bokysan/socketace/v2/internal/util/buffers"
 	"github.com/bokysan/socketace/v2/internal/util/cert"
+	"github.com/bokysan/socketace/v2/internal/verifhook"
 	"github.com/multiformats/go-multistream"
 	"github.com/pkg/errors"
 	log "github.com/sirupsen/logrus"
@@ -28,6 +29,8 @@ func AcceptConnection(conn net.Conn, manager cert.TlsConfig, secure bool, channe
 		}
 		return err
 	}
+
+	verifhook.Emit("server.session", server.Secure(), server.SecurityTech())
 
 	connectionHandler := &ConnectionHandler{
 		channels: channels,
@@ -81,6 +84,7 @@ func (ch *ConnectionHandler) acceptStream() {
 			// Every error returned here means that the session is gone (closed pipe, broken
 			// carrier, protocol violation, keep-alive timeout) and it will be returned again
 			// immediately on the next call, so retrying would only spin.
+			verifhook.Emit("server.accept.err")
 			log.WithError(err).Errorf("Error accepting stream, session finished: %v", err)
 			if !ch.session.IsClosed() {
 				streams.TryClose(ch.session)
@@ -89,6 +93,7 @@ func (ch *ConnectionHandler) acceptStream() {
 		}
 		stream = streams.NewNamedConnection(stream, stream.RemoteAddr().String())
 		log.Debugf("[Server] New logical connection accepted: %v", stream)
+		verifhook.At("server.stream.accepted")
 
 		// Serve every logical connection on its own goroutine, otherwise the next stream
 		// cannot be accepted until this one is finished.
